@@ -176,17 +176,19 @@ Definition get_traversal_children (self_name : option str) (name : str) : option
   | _ => None
   end.
 
-(* self.structure_by_name[component_name]['ref'] *)
+(* self.structure_by_name[component_name]['ref'], with  except (KeyError, TypeError): raise
+   ChildNotFound(name)  -- a field without component structure (e.g. of type varies) has no
+   subcomponent paths *)
 Definition designated_component_ref (f : field) (cname : str) : result sref :=
   match f_st f with
   | Some st =>
       if has_map_st st then
         match by_name st cname with
         | Some e => Ok (se_ref e)
-        | None => Err (Crash KeyError)
+        | None => Err (HL7 EChildNotFound)     (* KeyError *)
         end
-      else Err (Crash TypeError)       (* None[...] *)
-  | None => Err (Crash TypeError)
+      else Err (HL7 EChildNotFound)            (* None[...]: TypeError *)
+  | None => Err (HL7 EChildNotFound)
   end.
 
 (* the Component that the proxy creates for a child entry of the field
